@@ -73,6 +73,9 @@ type Decl struct {
 	// Aux: number of further optional integer QUERY parameters aux1..auxN declared on the same operation (concurrent
 	// cases: an operation with several query parameters); they are sent by the requests but not observed.
 	Aux int
+	// Body: "optional" = the operation (then a POST) also declares an optional body parameter `payload`; the requests
+	// send no body.  What the handler receives for the non-body parameter must not depend on it.
+	Body string
 }
 
 type Pair struct {
@@ -99,7 +102,7 @@ func (v Validation) JSON() M {
 
 func (d Decl) JSON() M {
 	return M{"in": d.In, "enc": d.Enc, "name": trace.B(d.Name), "type": d.Type, "format": d.Format, "itype": d.IType, "iformat": d.IFmt,
-		"cf": d.CF, "required": d.Required, "hasdef": d.HasDef, "def": trace.BB(d.Def), "allowEmpty": d.AllowEmpty, "val": d.Val.JSON(), "aux": d.Aux}
+		"cf": d.CF, "required": d.Required, "hasdef": d.HasDef, "def": trace.BB(d.Def), "allowEmpty": d.AllowEmpty, "val": d.Val.JSON(), "aux": d.Aux, "body": d.Body}
 }
 
 func pairsJSON(in []Pair) []M {
@@ -137,7 +140,7 @@ func declFrom(v any) Decl {
 	if x, ok := m["aux"]; ok {
 		aux = drv.Int(x)
 	}
-	return Decl{Aux: aux, In: drv.Str(m["in"]), Enc: drv.Str(m["enc"]), Name: trace.Str(m["name"]), Type: drv.Str(m["type"]), Format: drv.Str(m["format"]),
+	return Decl{Aux: aux, Body: drv.Str(m["body"]), In: drv.Str(m["in"]), Enc: drv.Str(m["enc"]), Name: trace.Str(m["name"]), Type: drv.Str(m["type"]), Format: drv.Str(m["format"]),
 		IType: drv.Str(m["itype"]), IFmt: drv.Str(m["iformat"]), CF: drv.Str(m["cf"]), Required: drv.Bool(m["required"]),
 		HasDef: drv.Bool(m["hasdef"]), Def: strs(m["def"]), AllowEmpty: drv.Bool(m["allowEmpty"]),
 		Val: Validation{K: drv.Str(vm["k"]), HasMin: drv.Bool(vm["hasmin"]), HasMax: drv.Bool(vm["hasmax"]), Min: trace.Str(vm["min"]),
@@ -261,7 +264,7 @@ func (d Decl) routePath() string {
 }
 
 func (d Decl) method() string {
-	if d.In == "formData" {
+	if d.In == "formData" || d.Body != "" {
 		return http.MethodPost
 	}
 	return http.MethodGet
@@ -346,8 +349,12 @@ func buildAPIOpt(d Decl, cached bool) (*apiInst, error) {
 	if d.In == "formData" {
 		op["consumes"] = []string{d.consumes()}
 	}
+	if d.Body != "" {
+		op["parameters"] = append(params, map[string]any{"name": "payload", "in": "body", "schema": map[string]any{"type": "object"}})
+		op["consumes"] = []string{"application/json"}
+	}
 	ops := map[string]any{strings.ToLower(d.method()): op}
-	if d.In == "query" {
+	if d.In == "query" && d.Body == "" {
 		// the same query parameter on a POST that carries a form body (requests with Other pairs)
 		ops["post"] = map[string]any{"operationId": "opPost", "parameters": op["parameters"], "responses": op["responses"],
 			"consumes": []string{"application/x-www-form-urlencoded", "multipart/form-data"}}
@@ -388,7 +395,7 @@ func buildAPIOpt(d Decl, cached bool) (*apiInst, error) {
 		return "ok", nil
 	})
 	api.RegisterOperation(d.method(), d.routePath(), record)
-	if d.In == "query" {
+	if d.In == "query" && d.Body == "" {
 		api.RegisterOperation(http.MethodPost, d.routePath(), record)
 	}
 	ctx := middleware.NewContext(ld, api, nil)
@@ -461,16 +468,16 @@ func buildRequest(d Decl, rq Req) (*http.Request, error) {
 			r.Header.Set("Content-Type", ct)
 			return r, nil
 		}
-		return httptest.NewRequest(http.MethodGet, "/p?"+encodePairs(rq.Pairs), nil), nil
+		return httptest.NewRequest(d.method(), "/p?"+encodePairs(rq.Pairs), nil), nil
 	case "header":
-		r := httptest.NewRequest(http.MethodGet, "/p", nil)
+		r := httptest.NewRequest(d.method(), "/p", nil)
 		for _, p := range rq.Pairs {
 			// net/http's server canonicalises the names of received header fields; Header.Add does the same
 			r.Header.Add(p.K, p.V)
 		}
 		return r, nil
 	case "path":
-		return httptest.NewRequest(http.MethodGet, "/p/"+url.PathEscape(rq.Seg)+"/e", nil), nil
+		return httptest.NewRequest(d.method(), "/p/"+url.PathEscape(rq.Seg)+"/e", nil), nil
 	case "formData":
 		body, ct, err := formBody(d.Enc, rq.Pairs)
 		if err != nil {
@@ -664,7 +671,7 @@ func serve(a *apiInst, d Decl, rq Req) (ev M) {
 	ev = M{"status": 0, "ran": false, "panic": false, "has": false, "val": emptyVal("none"), "dyn": "", "msg": []int{}}
 	var status int
 	var body []byte
-	if rq.Wire && d.In != "formData" && len(rq.Other) == 0 {
+	if rq.Wire && d.In != "formData" && len(rq.Other) == 0 && d.Body == "" {
 		var err error
 		a.fallback = st
 		status, body, err = wireRoundTrip(a.handler, d, rq)
